@@ -414,8 +414,8 @@ func init() {
 				c25System(c, s)
 			}
 		},
-		MinNontrivial: func(tier string) int { return 10000 },
-		Exhaustive:    func(string) bool { return false },
+		MinNontrivial:    func(tier string) int { return 10000 },
+		Exhaustive:       func(string) bool { return false },
 		RequiredCounters: []string{"algebra_pairs", "systems_solved_and_compared", "systems_with_cyclic_complement"},
 	})
 	_ = sort.Ints
